@@ -124,15 +124,17 @@ uint8_t get_reg(struct instr *instrc, struct operand *m, int r) {
         break;
       default:
 
-        m->reg = NO_BASE;
+        m->reg = reg64 | NO_BASE;
         instrc->no_base = true;
         break;
       }
     } else {
-      m->reg = NO_BASE;
+      m->reg = reg64 | NO_BASE;
       instrc->no_base = true;
     }
-    if (m->reg == NO_BASE) {
+    // (the no-base placeholder is sized like a 64-bit base register so that
+    // operand and immediate sizes come from the keyword, default qword)
+    if (instrc->no_base) {
       // without a base the displacement is always 32 bits wide: sign-extend
       // a negative displacement that was reduced to 8 bits
       if (instrc->mod_disp == MOD8)
